@@ -132,7 +132,7 @@ type detAnalyzer struct {
 	info    *types.Info
 	emit    sink
 	control bool
-	ssa     *ssaIndex // SSA form of the function literals and functions of the package
+	ssa     *ssaIndex           // SSA form of the function literals and functions of the package
 	labelOf map[ast.Stmt]string // label in front of a statement
 	derived []types.Object      // slices that the statement last judged by orderFreeUse fills from the unordered one
 }
@@ -809,7 +809,7 @@ type bodyClass struct {
 	slotIdents       map[*ast.Ident]bool // the occurrences of posVar that select such a slot
 	slotBases        map[*ast.Ident]bool // the occurrences of T in `T[pos] = …`
 	ownLabel         string              // label of the loop over the map itself, if it has one
-	innerLabels      map[string]bool // labels of statements inside the body: a jump to them stays within one iteration
+	innerLabels      map[string]bool     // labels of statements inside the body: a jump to them stays within one iteration
 }
 
 func (b *bodyClass) local(obj types.Object) bool {
